@@ -853,9 +853,43 @@ def readEmbed (arch : Arch) (size : Nat) (s : Str) : Option (Nat × Nat × Nat) 
   (stripPrefix? " TotalSize=".toList r).bind fun r =>
   (readNat r).bind fun (total, r) => if r == ['}'] then some (count, rep, total) else none
 
+/-- `label:` -/
+def monLabelText (env : Env) (id : Nat) (body : Str) : Bool :=
+  match dropLast? ':' body with | some l => parseLabel env l == some id | none => false
+
+def monAlignText (mode nn : Nat) (body : Str) : Bool := readAlign body == some ((if mode = 0 then 0 else 1), nn)
+
+def monEmbedText (arch : Arch) (size count rep : Nat) (body : Str) : Bool := readEmbed arch size body == some (count, rep, size * count)
+
+/-- `.label name` -/
+def monEmbedLabelText (env : Env) (id : Nat) (body : Str) : Bool :=
+  match stripPrefix? ".label ".toList body with | some l => parseLabel env l == some id | none => false
+
+/-- `.label (a - b)` -/
+def monLabelDeltaText (env : Env) (id base : Nat) (body : Str) : Bool :=
+  match (stripPrefix? ".label (".toList body).bind (dropLast? ')') with
+  | some inner =>
+    (match stripPrefix? " - ".toList (inner.dropWhile notSpace) with
+     | some b => parseLabel env (inner.takeWhile notSpace) == some id && parseLabel env b == some base
+     | none => false)
+  | none => false
+
+/-- `<00012> ` in front of the node text: the node's position, when kPositions asks for it -/
+def stripPosition (flags pos : Nat) (text : Str) : Option Str :=
+  if hasBit flags ffPositions ∧ pos ≠ 0 then
+    match text with
+    | '<' :: r =>
+      if (r.takeWhile isDigitC).length ≥ 5 ∧ parseDec (r.takeWhile isDigitC) = some pos then stripPrefix? ['>', ' '] (r.dropWhile isDigitC)
+      else none
+    | _ => none
+  else some text
+
 /-- the text of a node denotes the node: an instruction node reads back as the instruction (inline comment after `; `),
-    a label node as `label:`, align / embed-data / comment nodes as their content -/
-def monNode (env : Env) (flags : Nat) (n : Node) (inl : Option Str) (text : Str) : Bool :=
+    a label node as `label:`, align / embed-data / embed-label / comment / section nodes as their content -/
+def monNode (env : Env) (flags : Nat) (n : Node) (inl : Option Str) (text : Str) (pos : Nat := 0) : Bool :=
+  match stripPosition flags pos text with
+  | none => false
+  | some text =>
   match n with
   | .comment t => text == "; ".toList ++ t
   | _ =>
@@ -867,10 +901,12 @@ def monNode (env : Env) (flags : Nat) (n : Node) (inl : Option Str) (text : Str)
     | some body =>
       match n with
       | .inst id opts extra ops => monInstruction env flags id opts extra ops [] body
-      | .label id => (match dropLast? ':' body with | some l => parseLabel env l == some id | none => false)
-      | .align mode nn => readAlign body == some ((if mode = 0 then 0 else 1), nn)
-      | .embedData size count rep => readEmbed env.arch size body == some (count, rep, size * count)
+      | .label id => monLabelText env id body
+      | .align mode nn => monAlignText mode nn body
+      | .embedData size count rep => monEmbedText env.arch size count rep body
       | .section name => body == ".section ".toList ++ name
+      | .embedLabel id => monEmbedLabelText env id body
+      | .embedLabelDelta id base => monLabelDeltaText env id base body
       | .comment _ => false
 
 end AsmjitVerif.FormatText
